@@ -166,3 +166,38 @@ func (c *Ctx) errorReturnedUp(rc rcall) bool {
 }
 
 func (rc rcall) li() linstr { return linstr{rc.call, rc.chain} }
+
+
+// regionFuncChains: the root, its closures and every helper regionCalls looks into (leaf helpers without calls of
+// their own included), each with the call chain that leads to it (the first one found).
+func (c *Ctx) regionFuncChains(root *ssa.Function, follow func(*ssa.Function) bool) map[*ssa.Function][]ssa.CallInstruction {
+	out := map[*ssa.Function][]ssa.CallInstruction{}
+	for _, f := range withClosures(root) {
+		out[f] = nil
+	}
+	for _, rc := range c.regionCalls(root, follow) {
+		if _, ok := out[rc.fn]; !ok {
+			out[rc.fn] = rc.chain
+		}
+		callee := staticCallee(rc.call.Common())
+		if callee == nil {
+			continue
+		}
+		callee = unbound(callee)
+		if !c.isHelper(rc.fn, callee) || callee.Parent() != nil || len(rc.chain) >= 3 {
+			continue
+		}
+		ok := false
+		if follow != nil {
+			ok = follow(callee)
+		} else {
+			ok = callee.Object() != nil && !callee.Object().Exported()
+		}
+		if ok {
+			if _, seen := out[callee]; !seen {
+				out[callee] = append(append([]ssa.CallInstruction{}, rc.chain...), rc.call)
+			}
+		}
+	}
+	return out
+}
